@@ -438,19 +438,55 @@ where
         let mut ca = a;
         ca.clamp_assign();
         let get = |x: &Alpha<A, T>| { let mut o = x.color.arr(); o[3] = x.alpha; o };
-        // Alpha<C, T>: IsWithinBounds is not implementable for float T on the pinned tree (its bound asks
-        // T: IsWithinBounds); the flags are composed from the colour's own answer and the alpha range
-        let w = |x: &Alpha<A, T>| (x.color.is_within_bounds() && x.alpha >= 0.0 && x.alpha <= 1.0) as u8;
-        json!({"clamp": enc(&get(&c), true), "clamp2": enc(&get(&c2), true), "clamp_assign": enc(&get(&ca), true), "slice": enc(&get(&ca), true),
+        // the method as a user calls it on the wrapped colour (it must take the transparency into account)
+        let w = |x: &Alpha<A, T>| x.is_within_bounds() as u8;
+        // slice form: three wrapped colours, the middle one is the subject
+        let mut sl = [Alpha { color: A::of(&[0.25 as T, 0.25 as T, 0.25 as T, 0.0]), alpha: 0.5 as T }, a, Alpha { color: A::of(&[0.5 as T, 0.5 as T, 0.5 as T, 0.0]), alpha: 2.0 as T }];
+        sl[..].clamp_assign();
+        json!({"clamp": enc(&get(&c), true), "clamp2": enc(&get(&c2), true), "clamp_assign": enc(&get(&ca), true), "slice": enc(&get(&sl[1]), true),
                "within_in": w(&a), "within_out": w(&c), "within_out_assign": w(&ca)})
     }
 }
+
+// the three conversions between the Alpha-wrapped forms (exists when the checked conversion can target Alpha<B, T>)
+pub type AlphaFn = fn(&V) -> ([V; 3], bool);
+pub struct PA<A, B>(PhantomData<(A, B)>);
+pub trait YesA { fn get(&self) -> Option<AlphaFn>; }
+pub trait NoA { fn get(&self) -> Option<AlphaFn> { None } }
+impl<A, B> YesA for PA<A, B>
+where
+    A: Node,
+    B: Node,
+    Alpha<B, T>: FromColorUnclamped<Alpha<A, T>> + FromColor<Alpha<A, T>> + TryFromColor<Alpha<A, T>>,
+{
+    fn get(&self) -> Option<AlphaFn> {
+        fn f<A: Node, B: Node>(v: &V) -> ([V; 3], bool)
+        where
+            Alpha<B, T>: FromColorUnclamped<Alpha<A, T>> + FromColor<Alpha<A, T>> + TryFromColor<Alpha<A, T>>,
+        {
+            let aa: Alpha<A, T> = Alpha { color: A::of(v), alpha: v[3] };
+            let get = |x: &Alpha<B, T>| { let mut o = x.color.arr(); o[3] = x.alpha; o };
+            let u = <Alpha<B, T> as FromColorUnclamped<Alpha<A, T>>>::from_color_unclamped(aa);
+            let c = <Alpha<B, T> as FromColor<Alpha<A, T>>>::from_color(aa);
+            let (t, ok) = match <Alpha<B, T> as TryFromColor<Alpha<A, T>>>::try_from_color(aa) {
+                Ok(b) => (b, true),
+                Err(e) => (e.color(), false),
+            };
+            ([get(&u), get(&c), get(&t)], ok)
+        }
+        Some(f::<A, B>)
+    }
+}
+impl<A, B> NoA for &PA<A, B> {}
 
 macro_rules! row {
     ($A:ty; [$($B:ty),*]) => { vec![ $( (&P::<$A, $B>(PhantomData)).get() ),* ] };
 }
 macro_rules! rowc {
     ($A:ty; [$($B:ty),*]) => { vec![ $( (&PC::<$A, $B>(PhantomData)).get() ),* ] };
+}
+macro_rules! rowa {
+    ($A:ty; [$($B:ty),*]) => { vec![ $( (&PA::<$A, $B>(PhantomData)).get() ),* ] };
 }
 macro_rules! universe {
     ([$($A:ty),*]; $list:tt) => {
@@ -459,6 +495,7 @@ macro_rules! universe {
         }
         pub fn table() -> Vec<Vec<Option<ConvFn>>> { vec![ $( row!($A; $list) ),* ] }
         pub fn table_cont() -> Vec<Vec<Option<ContFn>>> { vec![ $( rowc!($A; $list) ),* ] }
+        pub fn table_alpha() -> Vec<Vec<Option<AlphaFn>>> { vec![ $( rowa!($A; $list) ),* ] }
     };
 }
 
@@ -535,6 +572,7 @@ pub fn convmain() {
     let nodes = nodes();
     let table = table();
     let table_cont = table_cont();
+    let table_alpha = table_alpha();
     let idx = |name: &str| -> usize {
         nodes.iter().position(|n| n.name == name).unwrap_or_else(|| { eprintln!("unknown node {}", name); std::process::exit(3) })
     };
@@ -622,6 +660,22 @@ pub fn convmain() {
                                 e["u"] = enc(&u.v, n, false); e["c"] = enc(&cl.v, n, false); e["tv"] = enc(&t.v, n, false);
                                 e["t_ok"] = json!(t.ok as u8); e["panic"] = json!(0);
                                 e["fin"] = json!(fin(&u.v, n, false) as u8);
+                                if let Some(a) = c.get("a").and_then(|a| a.as_str()) {
+                                    let mut va = v;
+                                    va[3] = hexf(a);
+                                    e["a"] = va[3].ex();
+                                    let (alo, ahi) = lohi(&nodes[to], true);
+                                    e["alo"] = alo; e["ahi"] = ahi;
+                                    if let Some(g) = table_alpha[from][to] {
+                                        match catch(|| g(&va)) {
+                                            Ok((r, ok)) => {
+                                                e["au"] = enc(&r[0], n, true); e["ac"] = enc(&r[1], n, true); e["atv"] = enc(&r[2], n, true);
+                                                e["at_ok"] = json!(ok as u8);
+                                            }
+                                            Err(_) => { e["panic"] = json!(1); }
+                                        }
+                                    }
+                                }
                                 if let Some(g) = table_cont[from][to] {
                                     match catch(|| g(&v)) {
                                         Ok(r) => {
